@@ -215,8 +215,45 @@ func checkC19(c *Check) {
 			iterEnd := func(pt Pt) bool {
 				return (pt.B.Stmt == ast.Stmt(rs) && (pt.B.Kind == kindRangeLoop || pt.B.Kind == kindRangeDone) && pt.I == 0) || r.F.IsExitPt(pt)
 			}
-			path, f := r.F.Reach(Query{From: bodyStart, Inclusive: true, Target: iterEnd, Avoid: closes})
-			c.Hold("R2", fi.Name()+":drain", rs.Pos(), !f, "a connection drained from a closed bucket is not closed: "+r.F.Describe(path))
+			// ownership may also be handed to a local list that is closed element by element later on
+			handsOver := func(pt Pt) bool {
+				as, ok := pt.Node().(*ast.AssignStmt)
+				if !ok || len(as.Lhs) != 1 || len(as.Rhs) != 1 {
+					return false
+				}
+				lst, args := appendTarget(info, as.Lhs[0], as.Rhs[0])
+				if lst == nil || len(args) != 1 || objOf(info, args[0]) != v {
+					return false
+				}
+				closedLater := false
+				for _, rs2 := range rangesIn(fi.Decl.Body, func(rs2 *ast.RangeStmt) bool { return objOf(info, rs2.X) == lst && rs2.Pos() > rs.End() }) {
+					ast.Inspect(rs2.Body, func(x ast.Node) bool {
+						if call, ok := x.(*ast.CallExpr); ok && methodName(call) == "Close" && rs2.Value != nil && recvObj(info, call) == objOf(info, rs2.Value) {
+							closedLater = true
+						}
+						return true
+					})
+				}
+				return closedLater
+			}
+			path, f := r.F.Reach(Query{From: bodyStart, Inclusive: true, Target: iterEnd, Avoid: orPt(closes, handsOver)})
+			msg := ""
+			if f {
+				msg = "a connection drained from a closed bucket is not closed: " + r.F.Describe(path)
+			}
+			// the drain must be complete: the bucket is already unlinked, nobody else can reach what is left in it
+			inspectNoLit(rs.Body, func(x ast.Node) bool {
+				switch st := x.(type) {
+				case *ast.ReturnStmt:
+					msg = "the drain of an unlinked bucket is left by `return` (line " + itoa(p.Fset.Position(st.Pos()).Line) + "): the connections still in the bucket can never be reached again – neither handed out nor closed"
+				case *ast.BranchStmt:
+					if st.Tok == token.BREAK || st.Tok == token.GOTO {
+						msg = "the drain of an unlinked bucket is left early: the remaining connections are never closed"
+					}
+				}
+				return true
+			})
+			c.Hold("R2", fi.Name()+":drain", rs.Pos(), msg == "", msg)
 			return true
 		})
 		// receive in select / assignment
